@@ -256,7 +256,9 @@ fn run_child(seed: Option<u64>, tier: Tier) -> Result<serde_json::Value, String>
     // /proc/self/exe keeps working when the binary on disk is replaced by a rebuild meanwhile
     let exe = if std::path::Path::new("/proc/self/exe").exists() { std::path::PathBuf::from("/proc/self/exe") } else { std::env::current_exe().map_err(|e| e.to_string())? };
     let mut cmd = std::process::Command::new(exe);
-    cmd.args(["C14CHILD", tier.name()]).env("VERIF_THREADS", "1").env("RAYON_NUM_THREADS", "1");
+    // no wall-clock caps inside the child: a cap that cuts an enumeration short would make the digests
+    // depend on machine load (this happened once under heavy load: a false alarm of the machinery)
+    cmd.args(["C14CHILD", tier.name()]).env("VERIF_THREADS", "1").env("RAYON_NUM_THREADS", "1").env("VERIF_BUDGET_S", "1000000");
     if let Some(s) = seed {
         cmd.env("LD_PRELOAD", SHIM).env("VERIF_HASH_SEED", s.to_string());
     } else {
